@@ -145,3 +145,15 @@ CHECKS['C14'] = {
             'under a synchronous executor stub: one system per index, in index order, equal to the in-process results. Real worker processes '
             'are outside (stated).',
 }
+
+_T = 'bounded symbolic execution of the real classes (CrossHair + z3): path-exhaustive over ordering classes of the symbolic numbers within the stated bound; counterexamples and sample paths replayed on CPython'
+TECHNIQUE = {
+    'C01': _T + '; plus AST->SMT translation of Event.__lt__ with six order lemmas discharged unbounded by z3 and cvc5',
+    'C07': _T + '; plus AST->SMT translation of the unpause shift statement, three lemmas over the reals (z3, cvc5)',
+    'C05': _T + '; plus AST->SMT (QF_BVFP) translation of the IEEE-754 delay guard, 2-ulp bound proved by cvc5 (1-ulp version shown sat)',
+    'C19': _T + '; plus a QF_FP query (z3) for float intervals on which k*iv differs from repeated addition, replayed on the real sensor (witness check)',
+    'C14': _T + '; the second run / the unsplit run replays the same symbolic tie-break weights; object hashes controlled by the harness',
+    'C04': _T + '; reference recurrence built as z3 max-terms and compared by validity queries',
+}
+for _k, _v in CHECKS.items():
+    _v.setdefault('technique', TECHNIQUE.get(_k, _T))
